@@ -122,4 +122,19 @@ PROPS = {
         "trusted_base": COMMON_TB,
         "assumptions": ["controller-declared global rules are not generated (only the repository's own root)"],
     },
+    "C09": {
+        "test": "TestC09",
+        "lean_modules": ["Gittuf.Props.C09"],
+        "n": {"quick": 24, "thorough": 600},
+        "min_per_shard": 6,
+        "rule": "1-3 pushes to a branch protected by a threshold 1..3 rule over Person/Key principals; 0-2 GitHub apps (trusted or not); "
+                "attestation states with reference authorizations and code-review approvals for the exact change or another change, "
+                "stored at the matching path or relocated (blobs written directly into the tree), signed by subsets of rule principals, "
+                "developers outside the rule, an outsider, the app key or a foreign key, with approvers / dismissed approvers / unknown "
+                "identities, recorded before or after the entry; verified with the real verifier (full, latest-only), compared with "
+                "the Lean model; the declarative per-entry authorization (statement names exactly the change; once per principal; "
+                "state recorded before the entry) is evaluated on every accepted range.",
+        "trusted_base": COMMON_TB,
+        "assumptions": ["tag approvals and v0.1 authorizations are not generated"],
+    },
 }
